@@ -179,7 +179,7 @@ func genC12Alloc(rng *rand.Rand) c12Alloc {
 		bi.GatewayIP.IPv6 = gw.String()
 		bi.ServiceCIDR.IPv6 = "fd01::/108"
 	}
-	nc := &rpc.NetConf{BasicInfo: bi, ENIInfo: &rpc.ENIInfo{MAC: []string{"", "00:00:00:00:00:00"}[rng.Intn(2)], Trunk: rng.Intn(2) == 0, Vid: uint32(rng.Intn(4095)), ERDMA: rng.Intn(5) == 0},
+	nc := &rpc.NetConf{BasicInfo: bi, ENIInfo: &rpc.ENIInfo{MAC: "", Trunk: rng.Intn(2) == 0, Vid: uint32(rng.Intn(4095)), ERDMA: rng.Intn(5) == 0},
 		Pod: &rpc.Pod{Ingress: uint64(rng.Intn(1 << 30)), Egress: uint64(rng.Intn(1 << 30)), NetworkPriority: []string{"", "best-effort", "burstable", "guaranteed"}[rng.Intn(4)]},
 		IfName: []string{"", "eth0", "eth1", "net1"}[rng.Intn(4)], DefaultRoute: rng.Intn(2) == 0}
 	if rng.Intn(3) == 0 {
